@@ -123,6 +123,21 @@ def check_c15(tier, seed, log=print):
         for nexts in (0, 1, 2):
             for x in ns:
                 reqs.append('BUMP b %s %d %d' % (P.hexs(b), nexts, x))
+    # the same through a callback: bump(n) called inside `next()`, after skips handled in the same call (token_start moved by
+    # trivia), with the panic caught and the lexer used afterwards
+    for s in ['   =9 ab', 'ab  cdé', '/* c */ab é', ' é', 'a', '=', '  é=', 'ab /* x */   cd']:
+        b = s.encode('utf-8')
+        n = len(b)
+        ns = sorted(set(list(range(0, 5)) + [n, n + 1, USIZE_MAX, USIZE_MAX - 1, USIZE_MAX - n, USIZE_MAX - n + 1, 2 ** 63]))
+        for nexts in (0, 1, 2, 3):
+            for x in ns:
+                if 0 <= x <= USIZE_MAX:
+                    reqs.append('CBUMP s %s %d %d' % (P.hexs(b), nexts, x))
+    for b in [b'  =9 ab', b'ab  \xff=', b' \xfe', b'a']:
+        n = len(b)
+        for nexts in (0, 1, 2):
+            for x in sorted(set(list(range(0, 4)) + [n, n + 1, USIZE_MAX, USIZE_MAX - n + 1])):
+                reqs.append('CBUMP b %s %d %d' % (P.hexs(b), nexts, x))
     # every Source method on the Deref wrappers (String, Box<str>, &str, Vec<u8>, Box<[u8]>, &[u8]) must answer like the base
     # impl, and the base impls like std (is_char_boundary); bump relies on Source::is_boundary of whatever source type is used
     src_reqs = ['SRC ' + P.hexs(x.encode('utf-8')) for x in srcs_s + ['aé中😀z', '\u00c0\u0400\u2013x']] + ['SRC ' + P.hexs(b) for b in srcs_b + [b'\x80\xbf', b'\xc3']]
@@ -162,7 +177,7 @@ def check_c15(tier, seed, log=print):
             if v is None:
                 run.violation('libcheck-crash', dict(config=name, request=rq, what='no answer (process died?)'), key='crash|%s|%s' % (name, rq))
                 continue
-            if v == 'NOTUTF8':
+            if v in ('NOTUTF8', 'NOCALL'):
                 continue
             parts = v.split(' ')
             t = rq.split(' ')
